@@ -91,6 +91,91 @@ def o1_send(chk, prog, nmirrors, nbytes):
     chk.end(ob)
 
 
+# ------------------------------------------------------------------------------------------------ O2 mirror -> server mapping
+from checks import fromconfig as FC
+
+
+@expectation('c20_mapping')
+def c20_mapping(want):
+    def f(res):
+        r = res[0]
+        if 'panic' in r or 'error' in r:
+            return ('panic' in r), 'native: %r' % (r,)
+        return (r['mirrors'] != want, 'native mirrors per server %r, configured %r' % (r['mirrors'], want))
+    return f
+
+
+def o2_mapping(chk, prog, nservers, nmirrors):
+    name = 'O2-mapping-%dservers-%dmirrors' % (nservers, nmirrors)
+    ob = chk.begin(name, 'ConnectionPool::from_config (real coroutine, nothing connected) on a shard with %d servers and %d mirror entries whose '
+                   'host byte, port and mirroring_target_index are symbolic: the mirrors attached to server i are exactly the entries '
+                   'targeting i, with the MIRROR\'s host and port, in order; no server inherits another server\'s mirrors'
+                   % (nservers, nmirrors), {'servers': nservers, 'mirrors': nmirrors})
+    ip = chk.interp(prog, name)
+    install_stats_noops(ip)
+
+    def harness(ip_):
+        cfg = FC.base_config(ip_, prog)
+        servers = [FC.mk_srvcfg(ip_, prog, rstring('s%d' % i), BV(16, 5432 + i), BV(64, 0 if i == 0 else 1)) for i in range(nservers)]
+        mirrors, meta = [], []
+        for j in range(nmirrors):
+            hb = ip_.fresh(8, 'mhost%d' % j)
+            ip_.assume(z3.And(z3.UGE(hb.v, 97), z3.ULE(hb.v, 99)))
+            port = ip_.fresh(16, 'mport%d' % j)
+            tgt = ip_.fresh(64, 'mtarget%d' % j)
+            ip_.assume(z3.ULE(tgt.v, nservers))          # nservers itself = dangling target
+            mirrors.append(FC.mk_mirror(prog, Seq([hb], 'string'), port, tgt))
+            meta.append((hb, port, tgt))
+        pool = FC.mk_pool_cfg(ip_, prog, [('0', servers, mirrors)])
+        pm = MapV('hashmap')
+        pm.entries.append([rstring('db'), Cell(pool, 'pool')])
+        setf(prog, cfg, 'Config', 'pools', pm)
+        FC.install(ip_, cfg)
+        try:
+            r = FC.run_from_config(ip_, prog)
+        except Panic as p:
+            raise Inconclusive('from_config panic: ' + p.msg)
+        ob.nontrivial += 1
+        ents = FC.pool_entries(ip_, prog)
+        if len(ents) != 1:
+            raise Inconclusive('expected one pool, got %d' % len(ents))
+        addrs = FC.addresses_of(ip_, prog, ents[0][2])[0]
+        # reference mapping on this path
+        tg = []
+        for (hb, port, tgt) in meta:
+            k = [x for x in range(nservers + 1) if decide(ip_, tgt.v == x)][0]
+            tg.append(k)
+        problems = None
+        conds = []
+        for i, a in enumerate(addrs):
+            ms = getf(prog, a, 'Address', 'mirrors').items
+            want = [j for j in range(nmirrors) if tg[j] == i]
+            if len(ms) != len(want):
+                problems = 'server %d has %d mirrors attached, %d configured for it' % (i, len(ms), len(want))
+                break
+            for mval, j in zip(ms, want):
+                hb, port, tgt = meta[j]
+                h = getf(prog, mval, 'Address', 'host').items
+                conds.append(z3.And(getf(prog, mval, 'Address', 'port').z() == port.z(), h[0].z() == hb.z()) if len(h) == 1 else z3.BoolVal(False))
+        m = None
+        if problems is None and conds:
+            m = ip_.model_for(z3.Not(z3.And(*conds)))
+            if m is not None:
+                problems = 'a mirror is attached with a host/port other than the configured one'
+        if problems:
+            m = m or ip_.model_for()
+            mj = [{'host': chr(m.eval(hb.z(), True).as_long()), 'port': m.eval(port.z(), True).as_long(), 'target': m.eval(tgt.z(), True).as_long()}
+                  for hb, port, tgt in meta]
+            want_all = [[[x['host'], x['port']] for x in mj if x['target'] == i] for i in range(nservers)]
+            chk.report(ob, 'C20/O2/mapping', 'mirror mapping: ' + problems + ' (mirrors %r)' % (mj,), {'servers': nservers, 'mirrors': mj},
+                       {'commands': [{'op': 'mirror_mapping', 'servers': nservers, 'mirrors': mj}], 'expect': ['c20_mapping', want_all]})
+        if len(ob.samples) < 2:
+            ob.samples.append({'targets': tg, 'attached': [len(getf(prog, a, 'Address', 'mirrors').items) for a in addrs]})
+    ip.explore(harness)
+    chk.absorb(ob, ip)
+    chk.end(ob)
+
+
 def _dispatch(chk, f, args):
     f(chk, *args)
 
@@ -105,13 +190,15 @@ def main(chk):
         'tokio channels.')
     chk.assumptions += [
         'tokio::sync::mpsc::Sender::{try_send, capacity, is_closed} contracts',
-        'mirror task behaviour under faults/timing, the mapping of mirrors to servers in ConnectionPool::from_config and added latency are outside the claim',
+        'mirror task behaviour under faults/timing and added latency are outside the claim',
     ]
     prog = chk.program('on')
     tasks = []
     for nm in (0, 1, 2) + ((3,) if chk.thorough else ()):
         for nb in (0, 3):
             tasks.append((o1_send, (prog, nm, nb)))
+    for ns, nm in ((1, 1), (2, 1), (2, 2)) + (((3, 2),) if chk.thorough else ()):
+        tasks.append((o2_mapping, (prog, ns, nm)))
     chk.parallel(_dispatch, tasks)
 
 
